@@ -3,6 +3,986 @@ From Coq Require Import List Arith ZArith Bool String Lia.
 From MechV Require Import Base.Sexp Base.Obs Proofs.SexpP Model.Elemwise.
 Import ListNotations.
 
-Lemma bop_reject_incompatible {A X} (f : A -> A -> option X) (a b : operand A) :
+(* ------------------------------------------------------------------ *)
+(* lists                                                               *)
+(* ------------------------------------------------------------------ *)
+
+Lemma map_opt_length {A B} (f : A -> option B) : forall l l',
+  map_opt f l = Some l' -> List.length l' = List.length l.
+Proof.
+  induction l as [|a l IH]; intros l' H; cbn in H.
+  - inversion H. reflexivity.
+  - destruct (f a) as [b|]; [|discriminate]. destruct (map_opt f l) as [bs|]; [|discriminate].
+    inversion H; subst. cbn. f_equal. apply IH. reflexivity.
+Qed.
+
+Lemma map_opt_nth {A B} (f : A -> option B) : forall l l' k a,
+  map_opt f l = Some l' -> nth_error l k = Some a ->
+  exists b, f a = Some b /\ nth_error l' k = Some b.
+Proof.
+  induction l as [|x l IH]; intros l' k a H Hk.
+  - destruct k; discriminate.
+  - cbn in H. destruct (f x) as [b|] eqn:Hfx; [|discriminate].
+    destruct (map_opt f l) as [bs|] eqn:Hm; [|discriminate]. inversion H; subst.
+    destruct k as [|k]; cbn in Hk |- *.
+    + inversion Hk; subst. eauto.
+    + eapply IH; eauto.
+Qed.
+
+Lemma map_opt_nth_inv {A B} (f : A -> option B) : forall l l' k b,
+  map_opt f l = Some l' -> nth_error l' k = Some b ->
+  exists a, nth_error l k = Some a /\ f a = Some b.
+Proof.
+  induction l as [|x l IH]; intros l' k b H Hk; cbn in H.
+  - inversion H; subst. destruct k; discriminate.
+  - destruct (f x) as [y|] eqn:Hfx; [|discriminate].
+    destruct (map_opt f l) as [bs|] eqn:Hm; [|discriminate]. inversion H; subst.
+    destruct k as [|k]; cbn in Hk |- *.
+    + inversion Hk; subst. eauto.
+    + eapply IH; eauto.
+Qed.
+
+Lemma map_opt_defined {A B} (f : A -> option B) : forall l,
+  (forall a, In a l -> f a <> None) -> map_opt f l <> None.
+Proof.
+  induction l as [|x l IH]; intros H; cbn; [discriminate|].
+  destruct (f x) eqn:Hfx; [|exfalso; apply (H x); [left; reflexivity|exact Hfx]].
+  destruct (map_opt f l) eqn:Hm; [discriminate|].
+  exfalso. apply IH; [|reflexivity]. intros a Ha. apply H. right. exact Ha.
+Qed.
+
+Lemma map_opt_none_inv {A B} (f : A -> option B) : forall l,
+  map_opt f l = None -> exists a, In a l /\ f a = None.
+Proof.
+  induction l as [|x l IH]; intros H; cbn in H; [discriminate|].
+  destruct (f x) eqn:Hfx.
+  - destruct (map_opt f l) eqn:Hm; [discriminate|].
+    destruct (IH eq_refl) as [a [Ha Hfa]]. exists a. split; [right; exact Ha|exact Hfa].
+  - exists x. split; [left; reflexivity|exact Hfx].
+Qed.
+
+Lemma map_opt_ext {A B} (f g : A -> option B) : forall l,
+  (forall a, In a l -> f a = g a) -> map_opt f l = map_opt g l.
+Proof.
+  induction l as [|x l IH]; intros H; cbn; [reflexivity|].
+  rewrite (H x) by (left; reflexivity). rewrite IH; [reflexivity|].
+  intros a Ha. apply H. right. exact Ha.
+Qed.
+
+Lemma map_opt_map {A B C} (g : A -> B) (f : B -> option C) : forall l,
+  map_opt f (map g l) = map_opt (fun a => f (g a)) l.
+Proof. induction l as [|x l IH]; cbn; [reflexivity|]. rewrite IH. reflexivity. Qed.
+
+Lemma nth_error_seq s n i : i < n -> nth_error (seq s n) i = Some (s + i).
+Proof.
+  intros H. rewrite (nth_error_nth' _ 0) by (rewrite seq_length; exact H).
+  rewrite seq_nth by exact H. reflexivity.
+Qed.
+
+(* ------------------------------------------------------------------ *)
+(* cells / tab                                                         *)
+(* ------------------------------------------------------------------ *)
+
+Lemma cells_gen_length R : forall C s,
+  List.length (flat_map (fun j => map (fun i => (i, j)) (seq 0 R)) (seq s C)) = C * R.
+Proof.
+  induction C as [|C IH]; intros s; cbn; [reflexivity|].
+  rewrite app_length, map_length, seq_length, IH. reflexivity.
+Qed.
+
+Lemma cells_length R C : List.length (cells R C) = C * R.
+Proof. apply cells_gen_length. Qed.
+
+Lemma cells_gen_nth R : forall C s i j, i < R -> j < C ->
+  nth_error (flat_map (fun j => map (fun i => (i, j)) (seq 0 R)) (seq s C)) (j * R + i) = Some (i, s + j).
+Proof.
+  induction C as [|C IH]; intros s i j Hi Hj; [lia|]. cbn [seq flat_map].
+  destruct j as [|j].
+  - rewrite nth_error_app1 by (rewrite map_length, seq_length; lia).
+    cbn [Nat.mul Nat.add]. erewrite map_nth_error by (apply nth_error_seq; exact Hi).
+    f_equal. f_equal. lia.
+  - rewrite nth_error_app2 by (rewrite map_length, seq_length; lia).
+    rewrite map_length, seq_length.
+    replace (S j * R + i - R) with (j * R + i) by lia.
+    rewrite IH by lia. f_equal. f_equal. lia.
+Qed.
+
+Lemma cells_nth R C i j : i < R -> j < C -> nth_error (cells R C) (j * R + i) = Some (i, j).
+Proof. intros Hi Hj. unfold cells. rewrite cells_gen_nth by assumption. reflexivity. Qed.
+
+Lemma cells_in R C p : In p (cells R C) -> fst p < R /\ snd p < C.
+Proof.
+  unfold cells. intros H. apply in_flat_map in H as [j [Hj H]].
+  apply in_map_iff in H as [i [<- Hi]]. apply in_seq in Hj, Hi. cbn. lia.
+Qed.
+
+Lemma tab_length {X} R C (g : nat -> nat -> option X) d : tab R C g = Some d -> List.length d = R * C.
+Proof. unfold tab. intros H. apply map_opt_length in H. rewrite H, cells_length. lia. Qed.
+
+Lemma tab_nth {X} R C (g : nat -> nat -> option X) d i j :
+  tab R C g = Some d -> i < R -> j < C ->
+  exists x, g i j = Some x /\ nth_error d (j * R + i) = Some x.
+Proof.
+  unfold tab. intros H Hi Hj.
+  destruct (map_opt_nth _ _ _ _ _ H (cells_nth R C i j Hi Hj)) as [x [Hx Hn]]. eauto.
+Qed.
+
+Lemma tab_defined {X} R C (g : nat -> nat -> option X) :
+  (forall i j, i < R -> j < C -> g i j <> None) -> tab R C g <> None.
+Proof.
+  intros H. unfold tab. apply map_opt_defined. intros p Hp. apply cells_in in Hp. apply H; tauto.
+Qed.
+
+Lemma tab_none_inv {X} R C (g : nat -> nat -> option X) :
+  tab R C g = None -> exists i j, i < R /\ j < C /\ g i j = None.
+Proof.
+  unfold tab. intros H. apply map_opt_none_inv in H as [p [Hp Hg]].
+  apply cells_in in Hp. exists (fst p), (snd p). tauto.
+Qed.
+
+Lemma tab_ext {X} R C (g h : nat -> nat -> option X) :
+  (forall i j, i < R -> j < C -> g i j = h i j) -> tab R C g = tab R C h.
+Proof.
+  intros H. unfold tab. apply map_opt_ext. intros p Hp. apply cells_in in Hp. apply H; tauto.
+Qed.
+
+(* ------------------------------------------------------------------ *)
+(* the specification bop                                               *)
+(* ------------------------------------------------------------------ *)
+
+(* element (i,j) of a result *)
+Definition oget {A} (o : operand A) (i j : nat) : option A :=
+  match o with
+  | OS x => if Nat.eqb i 0 && Nat.eqb j 0 then Some x else None
+  | OM m => mget m i j
+  end.
+
+Definition in_shape (s : shape) (i j : nat) : Prop :=
+  match s with Sc => i = 0 /\ j = 0 | Mx R C => i < R /\ j < C end.
+
+Lemma owf_wf {A} (m : mat A) : owf (OM m) = true <-> wf_mat m.
+Proof. apply wf_matb_wf. Qed.
+
+Theorem bop_reject_incompatible {A X} (f : A -> A -> option X) (a b : operand A) :
   bshape (oshape a) (oshape b) = None -> bop f a b = None.
 Proof. unfold bop. intros ->. reflexivity. Qed.
+
+Theorem bop_shape {A X} (f : A -> A -> option X) (a b : operand A) v :
+  bop f a b = Some v ->
+  bshape (oshape a) (oshape b) = Some (oshape v) /\ owf v = true.
+Proof.
+  unfold bop. destruct (bshape (oshape a) (oshape b)) as [[|R C]|]; [| |discriminate].
+  - destruct (bel f a b 0 0); [|discriminate]. cbn. intros H; inversion H; subst. split; reflexivity.
+  - destruct (tab R C (bel f a b)) as [d|] eqn:Ht; [|discriminate]. cbn. intros H; inversion H; subst.
+    split; [reflexivity|]. cbn. unfold wf_matb. cbn. apply Nat.eqb_eq. eapply tab_length; eauto.
+Qed.
+
+(* every element of the result is the scalar function applied to the broadcast elements *)
+Theorem bop_elem {A X} (f : A -> A -> option X) (a b : operand A) v s :
+  bop f a b = Some v -> bshape (oshape a) (oshape b) = Some s ->
+  forall i j, in_shape s i j ->
+    exists x y r, bget a i j = Some x /\ bget b i j = Some y /\ f x y = Some r /\ oget v i j = Some r.
+Proof.
+  unfold bop. intros H Hs. rewrite Hs in H. intros i j Hij. destruct s as [|R C]; cbn in Hij.
+  - destruct Hij as [-> ->]. unfold bel in H.
+    destruct (bget a 0 0) as [x|]; [|discriminate]. destruct (bget b 0 0) as [y|]; [|discriminate].
+    destruct (f x y) as [r|] eqn:Hf; [|discriminate]. inversion H; subst.
+    exists x, y, r. repeat split; try reflexivity; assumption.
+  - destruct (tab R C (bel f a b)) as [d|] eqn:Ht; [|discriminate]. inversion H; subst.
+    destruct Hij as [Hi Hj]. destruct (tab_nth _ _ _ _ _ _ Ht Hi Hj) as [r [Hr Hn]].
+    unfold bel in Hr. destruct (bget a i j) as [x|]; [|discriminate]. destruct (bget b i j) as [y|]; [|discriminate].
+    exists x, y, r. repeat split; try assumption.
+    unfold oget, mget. cbn [mrows mcols mdata]. apply Nat.ltb_lt in Hi, Hj. rewrite Hi, Hj. exact Hn.
+Qed.
+
+(* bget is defined inside the broadcast shape *)
+Lemma mget_defined {A} (m : mat A) i j : wf_mat m -> i < mrows m -> j < mcols m -> mget m i j <> None.
+Proof.
+  intros Hwf Hi Hj. unfold mget. pose proof Hi as Hi'. pose proof Hj as Hj'.
+  apply Nat.ltb_lt in Hi', Hj'. rewrite Hi', Hj'. cbn.
+  apply nth_error_Some. unfold wf_mat in Hwf. rewrite Hwf. nia.
+Qed.
+
+Lemma bshape_cases a b s : bshape a b = Some s ->
+  (a = Sc /\ s = b) \/ (b = Sc /\ s = a) \/
+  (exists R C, s = Mx R C /\
+     ((a = s /\ b = s) \/
+      (a = s /\ 2 <= R /\ 2 <= C /\ (b = Mx R 1 \/ b = Mx 1 C)) \/
+      (b = s /\ 2 <= R /\ 2 <= C /\ (a = Mx R 1 \/ a = Mx 1 C)))).
+Proof.
+  destruct a as [|r1 c1], b as [|r2 c2]; cbn; intros H.
+  - inversion H. left. split; reflexivity.
+  - inversion H. left. split; reflexivity.
+  - inversion H. right. left. split; reflexivity.
+  - right. right. unfold is_mat2 in H.
+    destruct (Nat.eqb r1 r2 && Nat.eqb c1 c2) eqn:E1.
+    { inversion H; subst. apply andb_prop in E1 as [E1 E2]. apply Nat.eqb_eq in E1, E2. subst.
+      exists r2, c2. split; [reflexivity|]. left. split; reflexivity. }
+    destruct (Nat.leb 2 r1 && Nat.leb 2 c1 && (Nat.eqb r2 r1 && Nat.eqb c2 1)) eqn:E2.
+    { inversion H; subst. repeat (apply andb_prop in E2 as [E2 ?]).
+      apply andb_prop in H0 as [? ?]. apply Nat.leb_le in E2, H1. apply Nat.eqb_eq in H0, H2. subst.
+      exists r1, c1. split; [reflexivity|]. right. left. repeat split; try assumption. left. reflexivity. }
+    destruct (Nat.leb 2 r1 && Nat.leb 2 c1 && (Nat.eqb r2 1 && Nat.eqb c2 c1)) eqn:E3.
+    { inversion H; subst. repeat (apply andb_prop in E3 as [E3 ?]).
+      apply andb_prop in H0 as [? ?]. apply Nat.leb_le in E3, H1. apply Nat.eqb_eq in H0, H2. subst.
+      exists r1, c1. split; [reflexivity|]. right. left. repeat split; try assumption. right. reflexivity. }
+    destruct (Nat.leb 2 r2 && Nat.leb 2 c2 && (Nat.eqb r1 r2 && Nat.eqb c1 1)) eqn:E4.
+    { inversion H; subst. repeat (apply andb_prop in E4 as [E4 ?]).
+      apply andb_prop in H0 as [? ?]. apply Nat.leb_le in E4, H1. apply Nat.eqb_eq in H0, H2. subst.
+      exists r2, c2. split; [reflexivity|]. right. right. repeat split; try assumption. left. reflexivity. }
+    destruct (Nat.leb 2 r2 && Nat.leb 2 c2 && (Nat.eqb r1 1 && Nat.eqb c1 c2)) eqn:E5; [|discriminate].
+    { inversion H; subst. repeat (apply andb_prop in E5 as [E5 ?]).
+      apply andb_prop in H0 as [? ?]. apply Nat.leb_le in E5, H1. apply Nat.eqb_eq in H0, H2. subst.
+      exists r2, c2. split; [reflexivity|]. right. right. repeat split; try assumption. right. reflexivity. }
+Qed.
+
+Lemma bget_defined {A} (a : operand A) b s i j :
+  owf a = true -> (bshape (oshape a) b = Some s \/ bshape b (oshape a) = Some s) ->
+  in_shape s i j -> bget a i j <> None.
+Proof.
+  intros Hwf Hs Hij. destruct a as [x|m]; cbn; [discriminate|].
+  apply owf_wf in Hwf. change (oshape (OM m)) with (Mx (mrows m) (mcols m)) in Hs.
+  assert (Hc : (s = Mx (mrows m) (mcols m)) \/
+               (exists R C, s = Mx R C /\ 2 <= R /\ 2 <= C /\
+                  ((mrows m = R /\ mcols m = 1) \/ (mrows m = 1 /\ mcols m = C)))).
+  { destruct Hs as [Hs|Hs]; apply bshape_cases in Hs;
+      destruct Hs as [[H1 H2]|[[H1 H2]|[R [C [-> H]]]]]; try discriminate; subst; try (left; reflexivity).
+    - destruct H as [[H _]|[[H _]|[_ [HR [HC H]]]]]; try (left; symmetry; exact H).
+      right. exists R, C. split; [reflexivity|]. split; [exact HR|]. split; [exact HC|].
+      destruct H as [H|H]; inversion H; subst; [left|right]; split; reflexivity.
+    - destruct H as [[_ H]|[[_ [HR [HC H]]]|[H _]]]; try (left; symmetry; exact H).
+      right. exists R, C. split; [reflexivity|]. split; [exact HR|]. split; [exact HC|].
+      destruct H as [H|H]; inversion H; subst; [left|right]; split; reflexivity. }
+  destruct Hc as [->|[R [C [-> [HR [HC Hv]]]]]]; cbn in Hij; destruct Hij as [Hi Hj].
+  - apply mget_defined; try assumption.
+    + destruct (Nat.eqb (mrows m) 1); lia.
+    + destruct (Nat.eqb (mcols m) 1); lia.
+  - destruct Hv as [[Hr Hc]|[Hr Hc]]; rewrite Hr, Hc; cbn.
+    + replace (Nat.eqb R 1) with false by (symmetry; apply Nat.eqb_neq; lia).
+      apply mget_defined; try assumption; lia.
+    + replace (Nat.eqb C 1) with false by (symmetry; apply Nat.eqb_neq; lia).
+      apply mget_defined; try assumption; lia.
+Qed.
+
+(* if the scalar function accepts every pair of elements, the matrix forms named by the property are accepted *)
+Theorem bop_accept_uniform {A X} (f : A -> A -> option X) (a b : operand A) :
+  owf a = true -> owf b = true ->
+  (forall x y, In x (odata a) -> In y (odata b) -> f x y <> None) ->
+  (oshape a = oshape b \/ oshape a = Sc \/ oshape b = Sc) ->
+  bop f a b <> None.
+Proof.
+  intros Ha Hb Hf Hs.
+  assert (Hbs : exists s, bshape (oshape a) (oshape b) = Some s).
+  { destruct Hs as [Hs|[Hs|Hs]]; rewrite Hs.
+    - destruct (oshape b) as [|r c]; cbn; [eauto|]. rewrite !Nat.eqb_refl. cbn. eauto.
+    - cbn. eauto.
+    - destruct (oshape a); cbn; eauto. }
+  destruct Hbs as [s Hbs].
+  assert (Hel : forall i j, in_shape s i j -> bel f a b i j <> None).
+  { intros i j Hij. unfold bel.
+    pose proof (bget_defined a (oshape b) s i j Ha (or_introl Hbs) Hij) as H1.
+    pose proof (bget_defined b (oshape a) s i j Hb (or_intror Hbs) Hij) as H2.
+    destruct (bget a i j) as [x|] eqn:Hx; [|congruence]. destruct (bget b i j) as [y|] eqn:Hy; [|congruence].
+    apply Hf.
+    - destruct a as [x0|m]; cbn in Hx |- *; [inversion Hx; left; reflexivity|].
+      unfold mget in Hx. destruct (_ && _); [|discriminate]. eapply nth_error_In; eauto.
+    - destruct b as [y0|m]; cbn in Hy |- *; [inversion Hy; left; reflexivity|].
+      unfold mget in Hy. destruct (_ && _); [|discriminate]. eapply nth_error_In; eauto. }
+  unfold bop. rewrite Hbs. destruct s as [|R C].
+  - specialize (Hel 0 0 (conj eq_refl eq_refl)). destruct (bel f a b 0 0); [discriminate|congruence].
+  - pose proof (tab_defined R C (bel f a b) (fun i j Hi Hj => Hel i j (conj Hi Hj))) as Ht.
+    destruct (tab R C (bel f a b)); [discriminate|congruence].
+Qed.
+
+(* bop is an error only if the shapes are incompatible or some needed scalar application is *)
+Theorem bop_none_inv {A X} (f : A -> A -> option X) (a b : operand A) s :
+  owf a = true -> owf b = true ->
+  bshape (oshape a) (oshape b) = Some s -> bop f a b = None ->
+  exists i j x y, in_shape s i j /\ bget a i j = Some x /\ bget b i j = Some y /\ f x y = None.
+Proof.
+  intros Ha Hb Hs H. unfold bop in H. rewrite Hs in H.
+  assert (Hel : exists i j, in_shape s i j /\ bel f a b i j = None).
+  { destruct s as [|R C].
+    - exists 0, 0. split; [split; reflexivity|]. destruct (bel f a b 0 0); [discriminate|reflexivity].
+    - destruct (tab R C (bel f a b)) eqn:Ht; [discriminate|].
+      apply tab_none_inv in Ht as [i [j [Hi [Hj Hn]]]]. exists i, j. split; [split; assumption|exact Hn]. }
+  destruct Hel as [i [j [Hij Hn]]]. exists i, j. unfold bel in Hn.
+  pose proof (bget_defined a (oshape b) s i j Ha (or_introl Hs) Hij) as H1.
+  pose proof (bget_defined b (oshape a) s i j Hb (or_intror Hs) Hij) as H2.
+  destruct (bget a i j) as [x|]; [|congruence]. destruct (bget b i j) as [y|]; [|congruence].
+  exists x, y. repeat split; assumption.
+Qed.
+
+(* ------------------------------------------------------------------ *)
+(* soundness of the judge                                              *)
+(* ------------------------------------------------------------------ *)
+
+(* What an `ok` verdict certifies about the implementation's observations on one case:
+   (i)  every scalar evaluation `x op y` whose result the property fixes agrees with the scalar model;
+   (ii) `A op B` is an error exactly when the shapes are incompatible or one of the scalar
+        evaluations it is made of is no value, and otherwise it is the broadcast-shaped
+        tabulation of the implementation's own scalar results (bop over the oracle). *)
+Definition C01_spec (o : op) (k : kind) (kn : string) (a b : operand sx) (t : otable) (r : obs) : Prop :=
+  (forall pa pb ob p, In (pa, pb, ob) t -> sop o k pa pb = SV true p ->
+      exists p', ob = OVal (KS (rkname o kn) p') /\ payload_eqb (rkind o k) p p' = true) /\
+  match bshape (oshape a) (oshape b) with
+  | None => r = OErr
+  | Some s =>
+      match bop (orc_f (rkname o kn) t) a b with
+      | Some e => exists v, r = OVal v /\ val_eqb (rkind o k) (rkname o kn) e v = true
+      | None => r = OErr
+      end
+  end.
+
+Lemma scalar_layer_ok o k kn t :
+  find (scalar_bad o k (rkname o kn)) t = None ->
+  forall pa pb ob p, In (pa, pb, ob) t -> sop o k pa pb = SV true p ->
+    exists p', ob = OVal (KS (rkname o kn) p') /\ payload_eqb (rkind o k) p p' = true.
+Proof.
+  intros Hf pa pb ob p Hin Hs.
+  pose proof (find_none _ _ Hf _ Hin) as Hb. unfold scalar_bad in Hb. rewrite Hs in Hb.
+  destruct ob as [[k' p'|k' m]| | | |x]; try discriminate.
+  apply negb_false_iff in Hb. apply andb_prop in Hb as [Hk Hp]. apply String.eqb_eq in Hk. subst.
+  exists p'. split; [reflexivity|exact Hp].
+Qed.
+
+Theorem judge_core_sound o k kn a b t r tag :
+  judge_core o k kn a b t r = v_ok tag -> C01_spec o k kn a b t r.
+Proof.
+  unfold judge_core, C01_spec. intros H.
+  destruct (find (scalar_bad o k (rkname o kn)) t) eqn:Hfind; [discriminate|].
+  split; [apply scalar_layer_ok; exact Hfind|].
+  destruct (bshape (oshape a) (oshape b)) as [s|].
+  - destruct (bop (orc_present t) a b); [|discriminate].
+    destruct (bop (orc_f (rkname o kn) t) a b) as [e|].
+    + destruct r as [v| | | |x]; try discriminate.
+      * destruct (val_eqb (rkind o k) (rkname o kn) e v) eqn:Hv; [|discriminate]. eauto.
+      * destruct (is_vec_bcast (oshape a) (oshape b)); discriminate.
+    + destruct r as [v| | | |x]; try discriminate. reflexivity.
+  - destruct r as [v| | | |x]; try discriminate; [|reflexivity].
+    destruct (ibop _ _ _ a b); [|discriminate].
+    destruct (kf_samevec _ a b && val_eqb _ _ _ v); discriminate.
+Qed.
+
+(* ------------------------------------------------------------------ *)
+(* the dispatch arms against the broadcast rule                        *)
+(* ------------------------------------------------------------------ *)
+
+Definition pos_shape (s : shape) : Prop :=
+  match s with Sc => True | Mx r c => 1 <= r /\ 1 <= c end.
+
+Ltac beq :=
+  repeat (match goal with
+  | |- context [Nat.eqb ?a ?b] => destruct (Nat.eqb_spec a b); try (exfalso; lia)
+  | |- context [Nat.leb ?a ?b] => destruct (Nat.leb_spec a b); try (exfalso; lia)
+  | |- context [Nat.ltb ?a ?b] => destruct (Nat.ltb_spec a b); try (exfalso; lia)
+  end; cbn [andb orb]).
+
+(* Which operand shapes reach which arm, and that the arms together accept exactly the
+   broadcast-compatible shapes — except that the same-form arm performs no shape test. *)
+Theorem dispatch_spec a b : pos_shape a -> pos_shape b ->
+  match dispatch a b with
+  | None => bshape a b = None
+  | Some ASS => a = Sc /\ b = Sc
+  | Some ASM => a = Sc /\ exists r c, b = Mx r c
+  | Some AMS => b = Sc /\ exists r c, a = Mx r c
+  | Some AVV => (exists r1 c1 r2 c2, a = Mx r1 c1 /\ b = Mx r2 c2) /\ (a = b \/ bshape a b = None)
+  | Some AMV => exists R C, 2 <= R /\ 2 <= C /\ a = Mx R C /\ b = Mx R 1
+  | Some AMR => exists R C, 2 <= R /\ 2 <= C /\ a = Mx R C /\ b = Mx 1 C
+  | Some AVM => exists R C, 2 <= R /\ 2 <= C /\ b = Mx R C /\ a = Mx R 1
+  | Some ARM => exists R C, 2 <= R /\ 2 <= C /\ b = Mx R C /\ a = Mx 1 C
+  end.
+Proof.
+  destruct a as [|r1 c1], b as [|r2 c2]; cbn [pos_shape]; intros Ha Hb.
+  - cbn. split; reflexivity.
+  - cbn. split; [reflexivity|eauto].
+  - cbn. split; [reflexivity|eauto].
+  - unfold dispatch, form_of.
+    destruct (Nat.eqb_spec r1 1), (Nat.eqb_spec c1 1), (Nat.eqb_spec r2 1), (Nat.eqb_spec c2 1); subst;
+      cbn [andb]; unfold guard_lhs_dm, guard_rhs_dm; beq;
+      repeat match goal with
+      | |- (exists r1 c1 r2 c2, Mx _ _ = Mx r1 c1 /\ Mx _ _ = Mx r2 c2) /\ _ =>
+          split; [do 4 eexists; split; reflexivity|]
+      | |- Mx ?a ?b = Mx ?c ?d \/ _ =>
+          destruct (Nat.eq_dec a c); [destruct (Nat.eq_dec b d); [left; subst; reflexivity|right]|right]
+      | |- exists R C, _ => do 2 eexists; repeat split; try reflexivity; try lia; try (f_equal; lia)
+      end;
+      try (unfold bshape, is_mat2; beq; first [reflexivity | exfalso; lia]).
+Qed.
+
+(* ------------------------------------------------------------------ *)
+(* the implementation model against the specification                  *)
+(* ------------------------------------------------------------------ *)
+
+Lemma map_opt_pointwise {A A' B} (f : A -> option B) (g : A' -> option B) : forall l l',
+  List.length l = List.length l' ->
+  (forall k a a', nth_error l k = Some a -> nth_error l' k = Some a' -> f a = g a') ->
+  map_opt f l = map_opt g l'.
+Proof.
+  induction l as [|x l IH]; intros [|y l'] Hlen H; try discriminate; [reflexivity|].
+  cbn. rewrite (H 0 x y eq_refl eq_refl). erewrite IH; [reflexivity| |].
+  - cbn in Hlen. lia.
+  - intros k a a' Ha Ha'. apply (H (S k)); assumption.
+Qed.
+
+Lemma cells_nth_inv R C k p :
+  nth_error (cells R C) k = Some p -> fst p < R /\ snd p < C /\ k = snd p * R + fst p.
+Proof.
+  intros H. assert (Hk : k < C * R).
+  { rewrite <- cells_length. apply nth_error_Some. congruence. }
+  assert (HR : 0 < R) by nia.
+  assert (Hi : k mod R < R) by (apply Nat.mod_upper_bound; lia).
+  assert (Hj : k / R < C) by (apply Nat.div_lt_upper_bound; nia).
+  pose proof (cells_nth R C _ _ Hi Hj) as Hc.
+  assert (Hkk : k / R * R + k mod R = k).
+  { pose proof (Nat.div_mod k R). lia. }
+  rewrite Hkk in Hc. rewrite H in Hc. inversion Hc; subst. cbn. repeat split; try assumption. lia.
+Qed.
+
+Lemma nth_error_combine {A B} : forall (la : list A) (lb : list B) k x y,
+  nth_error (combine la lb) k = Some (x, y) <-> nth_error la k = Some x /\ nth_error lb k = Some y.
+Proof.
+  induction la as [|a la IH]; intros lb k x y.
+  - cbn. destruct k; cbn; (split; [discriminate|intros [H _]; discriminate]).
+  - destruct lb as [|b lb].
+    + cbn. destruct k; cbn; (split; [discriminate|intros [_ H]; discriminate]).
+    + destruct k as [|k]; cbn.
+      * split; [intros H; inversion H; split; reflexivity|intros [H1 H2]; inversion H1; inversion H2; reflexivity].
+      * apply IH.
+Qed.
+
+Lemma if_eqb1_lt n i : i < n -> (if Nat.eqb n 1 then 0 else i) = i.
+Proof. intros H. destruct (Nat.eqb_spec n 1); lia. Qed.
+
+Lemma bget_in {A} (m : mat A) i j : i < mrows m -> j < mcols m ->
+  bget (OM m) i j = nth_error (mdata m) (j * mrows m + i).
+Proof.
+  intros Hi Hj. cbn. rewrite (if_eqb1_lt _ _ Hi), (if_eqb1_lt _ _ Hj). unfold mget.
+  apply Nat.ltb_lt in Hi, Hj. rewrite Hi, Hj. reflexivity.
+Qed.
+
+Lemma bget_col {A} (m : mat A) i j : mcols m = 1 -> i < mrows m -> bget (OM m) i j = nth_error (mdata m) i.
+Proof.
+  intros Hc Hi. cbn. rewrite Hc. cbn. rewrite (if_eqb1_lt _ _ Hi). unfold mget. rewrite Hc.
+  apply Nat.ltb_lt in Hi. rewrite Hi. cbn. reflexivity.
+Qed.
+
+Lemma bget_row {A} (m : mat A) i j : mrows m = 1 -> j < mcols m -> bget (OM m) i j = nth_error (mdata m) j.
+Proof.
+  intros Hr Hj. cbn. rewrite Hr. cbn. rewrite (if_eqb1_lt _ _ Hj). unfold mget. rewrite Hr.
+  apply Nat.ltb_lt in Hj. rewrite Hj. cbn. f_equal. lia.
+Qed.
+
+(* tabulating a function of the linear index over a well-formed matrix is a map over its data *)
+Lemma tab_linear {A X} (m : mat A) (g : A -> option X) :
+  wf_mat m ->
+  tab (mrows m) (mcols m) (fun i j => match bget (OM m) i j with Some x => g x | None => None end)
+  = map_opt g (mdata m).
+Proof.
+  intros Hwf. unfold tab. apply map_opt_pointwise.
+  - rewrite cells_length. unfold wf_mat in Hwf. lia.
+  - intros k p x Hp Hx. apply cells_nth_inv in Hp as [Hi [Hj Hk]].
+    rewrite bget_in by assumption. rewrite <- Hk, Hx. reflexivity.
+Qed.
+
+Lemma tab_linear2 {A X} (ma mb : mat A) (f : A -> A -> option X) :
+  wf_mat ma -> wf_mat mb -> mrows ma = mrows mb -> mcols ma = mcols mb ->
+  tab (mrows ma) (mcols ma) (bel f (OM ma) (OM mb)) = map2_opt f (mdata ma) (mdata mb).
+Proof.
+  intros Ha Hb Hr Hc. unfold tab, map2_opt. apply map_opt_pointwise.
+  - rewrite cells_length, combine_length. unfold wf_mat in Ha, Hb. rewrite Ha, Hb, <- Hr, <- Hc. lia.
+  - intros k p [x y] Hp Hxy. apply cells_nth_inv in Hp as [Hi [Hj Hk]].
+    apply nth_error_combine in Hxy as [Hx Hy]. unfold bel.
+    rewrite bget_in by assumption. rewrite bget_in by lia.
+    rewrite <- Hr, <- Hk, Hx, Hy. reflexivity.
+Qed.
+
+Theorem ibop_eq_bop {A X} (dflt : X) (vk : vkern) (f : A -> A -> option X) (a b : operand A) :
+  owf a = true -> owf b = true -> pos_shape (oshape a) -> pos_shape (oshape b) ->
+  kf_samevec vk a b = false -> ibop dflt vk f a b = bop f a b.
+Proof.
+  intros Ha Hb Hpa Hpb Hkf. pose proof (dispatch_spec _ _ Hpa Hpb) as Hd.
+  unfold ibop, kf_samevec in *. destruct (dispatch (oshape a) (oshape b)) as [[]|] eqn:Hdis.
+  - (* ASS *) destruct Hd as [Hsa Hsb]. destruct a as [x|ma]; [|discriminate]. destruct b as [y|mb]; [|discriminate].
+    reflexivity.
+  - (* ASM *) destruct Hd as [Hsa [r [c Hsb]]]. destruct a as [x|ma]; [|discriminate]. destruct b as [y|mb]; [discriminate|].
+    unfold bop. cbn [oshape bshape]. f_equal.
+    rewrite <- (tab_linear mb (fun y => f x y)) by (apply owf_wf; exact Hb).
+    apply tab_ext. intros i j Hi Hj. unfold bel. cbn [bget]. reflexivity.
+  - (* AMS *) destruct Hd as [Hsb [r [c Hsa]]]. destruct b as [y|mb]; [|discriminate]. destruct a as [x|ma]; [discriminate|].
+    unfold bop. cbn [oshape bshape]. f_equal.
+    rewrite <- (tab_linear ma (fun x => f x y)) by (apply owf_wf; exact Ha).
+    apply tab_ext. intros i j Hi Hj. unfold bel. cbn [bget]. destruct (mget ma _ _); reflexivity.
+  - (* AVV *) destruct Hd as [[r1 [c1 [r2 [c2 [Hsa Hsb]]]]] Hor].
+    destruct a as [x|ma]; [discriminate|]. destruct b as [y|mb]; [discriminate|].
+    apply owf_wf in Ha, Hb. cbn [oshape] in *.
+    destruct Hor as [Heq|Hnone].
+    + inversion Heq as [[Hr Hc]]. unfold bop. cbn [oshape]. rewrite <- Heq.
+      assert (Hbs : bshape (Mx (mrows ma) (mcols ma)) (Mx (mrows ma) (mcols ma)) = Some (Mx (mrows ma) (mcols ma))).
+      { cbn. rewrite !Nat.eqb_refl. reflexivity. }
+      rewrite Hbs. rewrite (tab_linear2 ma mb f Ha Hb Hr Hc).
+      assert (Hlen : List.length (mdata ma) = List.length (mdata mb)).
+      { unfold wf_mat in Ha, Hb. rewrite Ha, Hb, Hr, Hc. reflexivity. }
+      destruct vk.
+      * rewrite Hr, Hc, !Nat.eqb_refl. reflexivity.
+      * unfold map2_opt. destruct (map_opt _ (combine (mdata ma) (mdata mb))) as [d|] eqn:Hm; [|reflexivity].
+        cbn [option_map]. apply map_opt_length in Hm. rewrite combine_length, <- Hlen, Nat.min_id in Hm.
+        rewrite Hm, Nat.sub_diag. cbn [repeat]. rewrite app_nil_r. reflexivity.
+      * rewrite <- Hlen, Nat.ltb_irrefl. reflexivity.
+    + unfold bop. cbn [oshape]. rewrite Hnone.
+      assert (Hne : Nat.eqb (mrows ma) (mrows mb) && Nat.eqb (mcols ma) (mcols mb) = false).
+      { destruct (Nat.eqb_spec (mrows ma) (mrows mb)) as [e1|]; [|reflexivity].
+        destruct (Nat.eqb_spec (mcols ma) (mcols mb)) as [e2|]; [|reflexivity].
+        exfalso. rewrite e1, e2 in Hnone. cbn in Hnone. rewrite !Nat.eqb_refl in Hnone. discriminate. }
+      rewrite Hne in *. cbn [negb andb] in Hkf. destruct vk; [reflexivity|discriminate|].
+      apply negb_false_iff in Hkf. rewrite Hkf. reflexivity.
+  - (* AMV *) destruct Hd as [R [C [HR [HC [Hsa Hsb]]]]].
+    destruct a as [x|ma]; [discriminate|]. destruct b as [y|mb]; [discriminate|].
+    cbn [oshape] in Hsa, Hsb. inversion Hsa as [[Hra Hca]]. inversion Hsb as [[Hrb Hcb]].
+    unfold bop. cbn [oshape]. rewrite Hsa, Hsb.
+    assert (Hbs : bshape (Mx R C) (Mx R 1) = Some (Mx R C)).
+    { unfold bshape, is_mat2. beq; reflexivity. }
+    rewrite Hbs, Hra, Hca. f_equal. apply tab_ext. intros i j Hi Hj. unfold bel, nth2.
+    rewrite bget_in by lia. rewrite (bget_col mb i j) by lia. rewrite Hra. reflexivity.
+  - (* AVM *) destruct Hd as [R [C [HR [HC [Hsb Hsa]]]]].
+    destruct a as [x|ma]; [discriminate|]. destruct b as [y|mb]; [discriminate|].
+    cbn [oshape] in Hsa, Hsb. inversion Hsa as [[Hra Hca]]. inversion Hsb as [[Hrb Hcb]].
+    unfold bop. cbn [oshape]. rewrite Hsa, Hsb.
+    assert (Hbs : bshape (Mx R 1) (Mx R C) = Some (Mx R C)).
+    { unfold bshape, is_mat2. beq; reflexivity. }
+    rewrite Hbs, Hrb, Hcb. f_equal. apply tab_ext. intros i j Hi Hj. unfold bel, nth2.
+    rewrite (bget_col ma i j) by lia. rewrite bget_in by lia. rewrite Hrb. reflexivity.
+  - (* AMR *) destruct Hd as [R [C [HR [HC [Hsa Hsb]]]]].
+    destruct a as [x|ma]; [discriminate|]. destruct b as [y|mb]; [discriminate|].
+    cbn [oshape] in Hsa, Hsb. inversion Hsa as [[Hra Hca]]. inversion Hsb as [[Hrb Hcb]].
+    unfold bop. cbn [oshape]. rewrite Hsa, Hsb.
+    assert (Hbs : bshape (Mx R C) (Mx 1 C) = Some (Mx R C)).
+    { unfold bshape, is_mat2. beq; reflexivity. }
+    rewrite Hbs, Hra, Hca. f_equal. apply tab_ext. intros i j Hi Hj. unfold bel, nth2.
+    rewrite bget_in by lia. rewrite (bget_row mb i j) by lia. rewrite Hra. reflexivity.
+  - (* ARM *) destruct Hd as [R [C [HR [HC [Hsb Hsa]]]]].
+    destruct a as [x|ma]; [discriminate|]. destruct b as [y|mb]; [discriminate|].
+    cbn [oshape] in Hsa, Hsb. inversion Hsa as [[Hra Hca]]. inversion Hsb as [[Hrb Hcb]].
+    unfold bop. cbn [oshape]. rewrite Hsa, Hsb.
+    assert (Hbs : bshape (Mx 1 C) (Mx R C) = Some (Mx R C)).
+    { unfold bshape, is_mat2. beq; reflexivity. }
+    rewrite Hbs, Hrb, Hcb. f_equal. apply tab_ext. intros i j Hi Hj. unfold bel, nth2.
+    rewrite (bget_row ma i j) by lia. rewrite bget_in by lia. rewrite Hrb. reflexivity.
+  - (* no arm *) unfold bop. rewrite Hd. destruct a, b; reflexivity.
+Qed.
+
+(* ------------------------------------------------------------------ *)
+(* scalars: integers                                                   *)
+(* ------------------------------------------------------------------ *)
+Local Open Scope Z_scope.
+
+(* exact integer arithmetic; None where it has no (unique) exact integer result:
+   `/` when the divisor is 0 or does not divide, `%` outside the non-negative quadrant,
+   `^` with a negative exponent *)
+Definition zarith (o : op) (a b : Z) : option Z :=
+  match o with
+  | Add => Some (a + b)
+  | Sub => Some (a - b)
+  | Mul => Some (a * b)
+  | Neg => Some (- a)
+  | Pow => if 0 <=? b then Some (a ^ b) else None
+  | Div => if b =? 0 then None else if Z.rem a b =? 0 then Some (Z.quot a b) else None
+  | Mod => if (0 <=? a) && (0 <? b) then Some (a mod b) else None
+  | _ => None
+  end.
+
+Definition is_arith (o : op) : bool :=
+  match o with Add | Sub | Mul | Div | Mod | Pow | Neg => true | _ => false end.
+
+(* the exact quotient: q with a = b * q *)
+Lemma zarith_div_exact a b q : b <> 0 -> a = b * q -> zarith Div a b = Some q.
+Proof.
+  intros Hb ->. unfold zarith. destruct (Z.eqb_spec b 0) as [|_]; [contradiction|].
+  rewrite (Z.mul_comm b q), Z.rem_mul by exact Hb. cbn. rewrite Z.quot_mul by exact Hb. reflexivity.
+Qed.
+
+Lemma in_range_unsigned_nonneg w z : in_range false w z = true -> 0 <= z.
+Proof. unfold in_range. intros H. apply andb_prop in H as [H _]. lia. Qed.
+
+Lemma pow_guard_overflow w a b : 0 < w -> w < b -> 2 <= a -> in_range false w (a ^ b) = false.
+Proof.
+  intros Hw Hb Ha. unfold in_range. apply andb_false_iff. right. apply Z.ltb_ge.
+  transitivity (2 ^ b); [apply Z.pow_le_mono_r; lia|apply Z.pow_le_mono_l; lia].
+Qed.
+
+(* On integers the scalar model is binding exactly where exact integer arithmetic has a result
+   that the kind can represent, and then it is that result. *)
+Theorem sop_int_exact o sg w a b z :
+  0 < w -> in_range sg w a = true -> in_range sg w b = true ->
+  is_arith o = true -> accepts o (KInt sg w) = true ->
+  (sop o (KInt sg w) (Zx a) (Zx b) = SV true (Zx z) <-> zarith o a b = Some z /\ in_range sg w z = true).
+Proof.
+  intros Hw Ha Hb Har Hacc. cbn [sop]. rewrite Ha, Hb. cbn [andb].
+  assert (Hret : forall r, ret_int sg w r = SV true (Zx z) <-> Some r = Some z /\ in_range sg w z = true).
+  { intros r. unfold ret_int. destruct (in_range sg w r) eqn:Hr; split.
+    - intros H; inversion H; subst. split; [reflexivity|exact Hr].
+    - intros [H _]; inversion H; subst. reflexivity.
+    - discriminate.
+    - intros [H Hz]; inversion H; subst. congruence. }
+  destruct o; try discriminate; cbn [int_op zarith].
+  - apply Hret.
+  - apply Hret.
+  - apply Hret.
+  - destruct (Z.eqb_spec b 0); [split; [discriminate|intros [? _]; discriminate]|].
+    destruct (Z.eqb_spec (Z.rem a b) 0); [apply Hret|].
+    split; [discriminate|intros [? _]; discriminate].
+  - destruct (Z.eqb_spec b 0) as [->|Hb0].
+    + replace ((0 <=? a) && (0 <? 0)) with false by (rewrite andb_comm; reflexivity).
+      split; [discriminate|intros [? _]; discriminate].
+    + destruct ((0 <=? a) && (0 <? b)) eqn:Hq.
+      * apply andb_prop in Hq as [Hq1 Hq2]. split.
+        -- intros H; inversion H; subst. split; [reflexivity|].
+           assert (0 <= a mod b < b) by (apply Z.mod_pos_bound; lia).
+           unfold in_range in *. destruct sg.
+           ++ apply andb_prop in Hb as [_ Hb]. apply andb_true_intro. split; lia.
+           ++ apply andb_prop in Hb as [_ Hb]. apply andb_true_intro. split; lia.
+        -- intros [H _]; inversion H; subst. reflexivity.
+      * split; [discriminate|intros [? _]; discriminate].
+  - (* Pow *)
+    cbn [accepts] in Hacc. apply andb_prop in Hacc as [Hsg Hw32]. apply negb_true_iff in Hsg. subst sg.
+    cbn [orb]. replace (32 <? w) with false by (symmetry; apply Z.ltb_ge; lia).
+    pose proof (in_range_unsigned_nonneg _ _ Ha) as Ha0. pose proof (in_range_unsigned_nonneg _ _ Hb) as Hb0.
+    replace (0 <=? b) with true by (symmetry; apply Z.leb_le; lia).
+    destruct (Z.ltb_spec w b) as [Hwb|Hwb]; [|apply Hret].
+    destruct (Z.eqb_spec a 0) as [->|Ha1].
+    { rewrite Z.pow_0_l by lia. split.
+      - intros H; inversion H; subst. split; [reflexivity|]. unfold in_range. apply andb_true_intro. split; [lia|].
+        apply Z.ltb_lt. apply Z.pow_pos_nonneg; lia.
+      - intros [H _]; inversion H; subst. reflexivity. }
+    destruct (Z.eqb_spec a 1) as [->|Ha2].
+    { rewrite Z.pow_1_l by lia. split.
+      - intros H; inversion H; subst. split; [reflexivity|]. unfold in_range. apply andb_true_intro. split; [lia|].
+        apply Z.ltb_lt. change 1 with (2 ^ 0). apply Z.pow_lt_mono_r; lia.
+      - intros [H _]; inversion H; subst. reflexivity. }
+    split; [discriminate|]. intros [H Hz]. inversion H; subst.
+    rewrite pow_guard_overflow in Hz by lia. discriminate.
+  - (* Neg *) cbn [accepts] in Hacc. subst sg. apply Hret.
+Qed.
+
+Definition zcmp (o : op) (a b : Z) : bool :=
+  match o with
+  | Eq => a =? b | Ne => negb (a =? b)
+  | Lt => a <? b | Le => a <=? b | Gt => b <? a | Ge => b <=? a
+  | _ => false
+  end.
+
+Lemma cmp_of_zcmp o a b : is_cmp o = true -> cmp_of o (a ?= b) = zcmp o a b.
+Proof.
+  intros Ho. destruct o; try discriminate; unfold zcmp; destruct (Z.compare_spec a b) as [H|H|H]; cbn [cmp_of];
+    repeat match goal with
+    | |- context [Z.eqb ?x ?y] => destruct (Z.eqb_spec x y)
+    | |- context [Z.ltb ?x ?y] => destruct (Z.ltb_spec x y)
+    | |- context [Z.leb ?x ?y] => destruct (Z.leb_spec x y)
+    end; cbn [negb]; try reflexivity; lia.
+Qed.
+
+(* comparisons of integers are the order of Z *)
+Theorem sop_int_cmp o sg w a b :
+  in_range sg w a = true -> in_range sg w b = true -> is_cmp o = true ->
+  sop o (KInt sg w) (Zx a) (Zx b) = SV true (bool_p (zcmp o a b)).
+Proof.
+  intros Ha Hb Ho. cbn [sop]. rewrite Ha, Hb. cbn [andb].
+  rewrite <- cmp_of_zcmp by exact Ho. destruct o; try discriminate; reflexivity.
+Qed.
+
+(* ------------------------------------------------------------------ *)
+(* scalars: Boolean algebra, strings                                   *)
+(* ------------------------------------------------------------------ *)
+
+Theorem sop_bool_algebra (a b : bool) :
+  sop And KBool (bool_p a) (bool_p b) = SV true (bool_p (a && b)) /\
+  sop Or KBool (bool_p a) (bool_p b) = SV true (bool_p (a || b)) /\
+  sop Xor KBool (bool_p a) (bool_p b) = SV true (bool_p (xorb a b)) /\
+  sop Not KBool (bool_p a) (bool_p b) = SV true (bool_p (negb a)) /\
+  sop Eq KBool (bool_p a) (bool_p b) = SV true (bool_p (Bool.eqb a b)) /\
+  sop Ne KBool (bool_p a) (bool_p b) = SV true (bool_p (negb (Bool.eqb a b))).
+Proof. destruct a, b; repeat split; reflexivity. Qed.
+
+Theorem sop_string (a b : string) :
+  sop Add KStr (Qx a) (Qx b) = SV true (Qx (String.append a b)) /\
+  sop Eq KStr (Qx a) (Qx b) = SV true (bool_p (String.eqb a b)) /\
+  sop Ne KStr (Qx a) (Qx b) = SV true (bool_p (negb (String.eqb a b))).
+Proof. repeat split; reflexivity. Qed.
+
+(* ------------------------------------------------------------------ *)
+(* scalars: rationals                                                  *)
+(* ------------------------------------------------------------------ *)
+
+(* exact value N/D of the operation as numerator and denominator (not reduced) *)
+Definition qarith (o : op) (n1 d1 n2 d2 : Z) : option (Z * Z) :=
+  match o with
+  | Add => Some (n1 * d2 + n2 * d1, d1 * d2)
+  | Sub => Some (n1 * d2 - n2 * d1, d1 * d2)
+  | Mul => Some (n1 * n2, d1 * d2)
+  | Div => Some (n1 * d2, d1 * n2)
+  | Neg => Some (- n1, d1)
+  | _ => None
+  end.
+
+Lemma ret_rat_sound N D p : ret_rat N D = SV true p ->
+  D <> 0 /\ exists n d, p = Lx [Zx n; Zx d] /\ 0 < d /\ Z.gcd n d = 1 /\ n * D = N * d /\
+                        in_range true 64 n = true /\ in_range true 64 d = true.
+Proof.
+  unfold ret_rat. destruct (Z.eqb_spec D 0) as [|HD]; [discriminate|]. intros H. split; [exact HD|].
+  unfold rnorm in H. cbv zeta in H. set (g := Z.gcd N D) in *.
+  assert (Hg : 0 < g) by (pose proof (Z.gcd_nonneg N D); assert (g <> 0) by (intro E; apply Z.gcd_eq_0_r in E; contradiction); lia).
+  destruct (Z.gcd_divide_l N D) as [n' Hn']. destruct (Z.gcd_divide_r N D) as [d' Hd']. fold g in Hn', Hd'.
+  assert (HNg : N / g = n') by (rewrite Hn'; apply Z.div_mul; lia).
+  assert (HDg : D / g = d') by (rewrite Hd'; apply Z.div_mul; lia).
+  assert (Hcop : Z.gcd n' d' = 1).
+  { rewrite <- HNg, <- HDg. apply Z.gcd_div_gcd; [lia|reflexivity]. }
+  rewrite HNg, HDg in H.
+  destruct (Z.ltb_spec D 0) as [Hneg|Hpos].
+  - destruct (in_range true 64 (- n') && in_range true 64 (- d')) eqn:Hfit; [|discriminate].
+    inversion H; subst p. apply andb_prop in Hfit as [F1 F2].
+    exists (- n'), (- d'). repeat split; try assumption.
+    + nia.
+    + rewrite Z.gcd_opp_l, Z.gcd_opp_r. exact Hcop.
+    + rewrite Hn', Hd'. ring.
+  - destruct (in_range true 64 n' && in_range true 64 d') eqn:Hfit; [|discriminate].
+    inversion H; subst p. apply andb_prop in Hfit as [F1 F2].
+    exists n', d'. repeat split; try assumption.
+    + nia.
+    + rewrite Hn', Hd'. ring.
+Qed.
+
+(* a binding result of a rational operator is the exact value of the operation, in lowest terms,
+   positive denominator, both parts within i64: p/q with p * D = N * q where N/D is the exact value *)
+Theorem sop_rat_exact o n1 d1 n2 d2 N D p :
+  0 < d1 -> 0 < d2 -> qarith o n1 d1 n2 d2 = Some (N, D) ->
+  sop o KR64 (Lx [Zx n1; Zx d1]) (Lx [Zx n2; Zx d2]) = SV true p ->
+  D <> 0 /\ exists n d, p = Lx [Zx n; Zx d] /\ 0 < d /\ Z.gcd n d = 1 /\ n * D = N * d /\
+                        in_range true 64 n = true /\ in_range true 64 d = true.
+Proof.
+  intros H1 H2 Hq. cbn [sop]. unfold rat_op.
+  replace ((0 <? d1) && (0 <? d2)) with true by (symmetry; apply andb_true_intro; split; apply Z.ltb_lt; assumption).
+  cbn [negb]. destruct o; try discriminate; cbn [qarith] in Hq; inversion Hq; subst; apply ret_rat_sound.
+Qed.
+
+(* ... and it is binding whenever the reduced exact value fits *)
+Theorem sop_rat_binding o n1 d1 n2 d2 N D :
+  0 < d1 -> 0 < d2 -> qarith o n1 d1 n2 d2 = Some (N, D) -> D <> 0 ->
+  in_range true 64 (fst (rnorm N D)) = true -> in_range true 64 (snd (rnorm N D)) = true ->
+  exists p, sop o KR64 (Lx [Zx n1; Zx d1]) (Lx [Zx n2; Zx d2]) = SV true p.
+Proof.
+  intros H1 H2 Hq HD F1 F2. cbn [sop]. unfold rat_op.
+  replace ((0 <? d1) && (0 <? d2)) with true by (symmetry; apply andb_true_intro; split; apply Z.ltb_lt; assumption).
+  cbn [negb].
+  assert (Hr : exists p, ret_rat N D = SV true p).
+  { unfold ret_rat. destruct (Z.eqb_spec D 0); [contradiction|]. destruct (rnorm N D) as [n' d']. cbn [fst snd] in F1, F2.
+    rewrite F1, F2. cbn. eauto. }
+  destruct o; try discriminate; cbn [qarith] in Hq; inversion Hq; subst; exact Hr.
+Qed.
+
+(* comparisons of rationals are the order of Q (cross-multiplied; denominators positive) *)
+Theorem sop_rat_cmp o n1 d1 n2 d2 :
+  0 < d1 -> 0 < d2 -> is_cmp o = true ->
+  sop o KR64 (Lx [Zx n1; Zx d1]) (Lx [Zx n2; Zx d2]) = SV true (bool_p (zcmp o (n1 * d2) (n2 * d1))).
+Proof.
+  intros H1 H2 Ho. cbn [sop]. unfold rat_op.
+  replace ((0 <? d1) && (0 <? d2)) with true by (symmetry; apply andb_true_intro; split; apply Z.ltb_lt; assumption).
+  cbn [negb]. rewrite <- cmp_of_zcmp by exact Ho. destruct o; try discriminate; reflexivity.
+Qed.
+Local Close Scope Z_scope.
+
+(* ------------------------------------------------------------------ *)
+(* the known finding: the same-form arm does not compare shapes         *)
+(* ------------------------------------------------------------------ *)
+
+(* outside the class the implementation model rejects incompatible shapes *)
+Corollary ibop_reject_incompatible {A X} (dflt : X) (vk : vkern) (f : A -> A -> option X) (a b : operand A) :
+  owf a = true -> owf b = true -> pos_shape (oshape a) -> pos_shape (oshape b) ->
+  kf_samevec vk a b = false -> bshape (oshape a) (oshape b) = None -> ibop dflt vk f a b = None.
+Proof.
+  intros Ha Hb Hpa Hpb Hkf Hs. rewrite ibop_eq_bop by assumption. apply bop_reject_incompatible. exact Hs.
+Qed.
+
+(* inside the class the shapes are incompatible (so the property demands an error) *)
+Lemma kf_samevec_incompatible {A} (vk : vkern) (a b : operand A) :
+  pos_shape (oshape a) -> pos_shape (oshape b) ->
+  kf_samevec vk a b = true -> bshape (oshape a) (oshape b) = None.
+Proof.
+  intros Hpa Hpb H. pose proof (dispatch_spec _ _ Hpa Hpb) as Hd. unfold kf_samevec in H.
+  destruct (dispatch (oshape a) (oshape b)) as [[]|]; try discriminate.
+  destruct a as [x|ma]; [discriminate|]. destruct b as [y|mb]; [discriminate|].
+  apply andb_prop in H as [H _]. apply negb_true_iff in H.
+  destruct Hd as [_ [Heq|Hn]]; [|exact Hn]. cbn [oshape] in Heq. inversion Heq as [[Hr Hc]].
+  rewrite Hr, Hc, !Nat.eqb_refl in H. discriminate.
+Qed.
+
+(* the witness: `[1 2 3 4] * [1 2 3]` (1x4 with 1x3, both RowDVector) yields [1 4 9 0] *)
+Theorem refuted_samevec :
+  exists (a b : operand Z) (v : operand Z),
+    owf a = true /\ owf b = true /\ pos_shape (oshape a) /\ pos_shape (oshape b) /\
+    bshape (oshape a) (oshape b) = None /\ kf_samevec VZip a b = true /\
+    ibop 0%Z VZip (fun x y => Some (x * y)%Z) a b = Some v.
+Proof.
+  exists (OM (Mat 1 4 [1; 2; 3; 4]%Z)), (OM (Mat 1 3 [1; 2; 3]%Z)), (OM (Mat 1 4 [1; 4; 9; 0]%Z)).
+  cbn [oshape pos_shape mrows mcols]. repeat split; try reflexivity; lia.
+Qed.
+
+From Coq Require Import Reals.
+From Flocq Require Import Core IEEE754.BinarySingleNaN IEEE754.Binary IEEE754.Bits.
+
+(* ------------------------------------------------------------------ *)
+(* scalars: IEEE-754 (Flocq)                                           *)
+(* ------------------------------------------------------------------ *)
+
+(* the operation on real numbers *)
+Definition rop (o : op) (x y : R) : R :=
+  match o with
+  | Add => (x + y)%R | Sub => (x - y)%R | Mul => (x * y)%R | Div => (x / y)%R
+  | _ => 0%R
+  end.
+
+Definition is_fop (o : op) : bool := match o with Add | Sub | Mul | Div => true | _ => false end.
+
+(* rounding to nearest even into binary64 / binary32 *)
+Definition round64 (r : R) : R := round radix2 (SpecFloat.fexp 53 1024) (round_mode mode_NE) r.
+Definition round32 (r : R) : R := round radix2 (SpecFloat.fexp 24 128) (round_mode mode_NE) r.
+
+Lemma b64_bits_roundtrip (z : binary64) : b64_of_bits (bits_of_b64 z) = z.
+Proof. exact (binary_float_of_bits_of_binary_float 52 11 eq_refl eq_refl eq_refl z). Qed.
+
+Lemma b32_bits_roundtrip (z : binary32) : b32_of_bits (bits_of_b32 z) = z.
+Proof. exact (binary_float_of_bits_of_binary_float 23 8 eq_refl eq_refl eq_refl z). Qed.
+
+Lemma f64_range_ok a b : (0 <= a < 2 ^ 64)%Z -> (0 <= b < 2 ^ 64)%Z ->
+  negb ((0 <=? a)%Z && (a <? 2 ^ 64)%Z && (0 <=? b)%Z && (b <? 2 ^ 64)%Z) = false.
+Proof.
+  intros [A1 A2] [B1 B2]. apply negb_false_iff. repeat (apply andb_true_intro; split);
+    first [apply Z.leb_le; assumption | apply Z.ltb_lt; assumption].
+Qed.
+
+Lemma f32_range_ok a b : (0 <= a < 2 ^ 32)%Z -> (0 <= b < 2 ^ 32)%Z ->
+  negb ((0 <=? a)%Z && (a <? 2 ^ 32)%Z && (0 <=? b)%Z && (b <? 2 ^ 32)%Z) = false.
+Proof.
+  intros [A1 A2] [B1 B2]. apply negb_false_iff. repeat (apply andb_true_intro; split);
+    first [apply Z.leb_le; assumption | apply Z.ltb_lt; assumption].
+Qed.
+
+(* + - * / on f64: the result is the binary64 number Flocq's IEEE-754 operation yields; for finite
+   operands whose rounded exact result does not overflow it denotes that rounded exact result *)
+Theorem sop_f64_ieee o a b :
+  is_fop o = true -> (0 <= a < 2 ^ 64)%Z -> (0 <= b < 2 ^ 64)%Z ->
+  let x := b64_of_bits a in
+  let y := b64_of_bits b in
+  exists r, sop o KF64 (Zx a) (Zx b) = SV true (Zx r) /\
+    (Binary.is_finite 53 1024 x = true -> Binary.is_finite 53 1024 y = true ->
+     (o = Div -> Binary.B2R 53 1024 y <> 0%R) ->
+     Rlt_bool (Rabs (round64 (rop o (Binary.B2R 53 1024 x) (Binary.B2R 53 1024 y)))) (bpow radix2 1024) = true ->
+     Binary.B2R 53 1024 (b64_of_bits r) = round64 (rop o (Binary.B2R 53 1024 x) (Binary.B2R 53 1024 y)) /\
+     Binary.is_finite 53 1024 (b64_of_bits r) = true).
+Proof.
+  intros Ho Ha Hb x y. cbn [sop]. unfold f64_op. rewrite (f64_range_ok a b Ha Hb). fold x y.
+  destruct o; try discriminate; cbn [rop]; eexists; (split; [reflexivity|]);
+    intros Fx Fy Hd Hov; rewrite b64_bits_roundtrip; unfold round64 in *.
+  - pose proof (Binary.Bplus_correct 53 1024 eq_refl eq_refl binop_nan_pl64 mode_NE x y Fx Fy) as H.
+    rewrite Hov in H. destruct H as [H1 [H2 _]]. split; assumption.
+  - pose proof (Binary.Bminus_correct 53 1024 eq_refl eq_refl binop_nan_pl64 mode_NE x y Fx Fy) as H.
+    rewrite Hov in H. destruct H as [H1 [H2 _]]. split; assumption.
+  - pose proof (Binary.Bmult_correct 53 1024 eq_refl eq_refl binop_nan_pl64 mode_NE x y) as H.
+    rewrite Hov in H. destruct H as [H1 [H2 _]]. split; [assumption|]. unfold b64_mult. rewrite H2, Fx, Fy. reflexivity.
+  - pose proof (Binary.Bdiv_correct 53 1024 eq_refl eq_refl binop_nan_pl64 mode_NE x y (Hd eq_refl)) as H.
+    rewrite Hov in H. destruct H as [H1 [H2 _]]. split; [assumption|]. unfold b64_div. rewrite H2. exact Fx.
+Qed.
+
+Theorem sop_f32_ieee o a b :
+  is_fop o = true -> (0 <= a < 2 ^ 32)%Z -> (0 <= b < 2 ^ 32)%Z ->
+  let x := b32_of_bits a in
+  let y := b32_of_bits b in
+  exists r, sop o KF32 (Zx a) (Zx b) = SV true (Zx r) /\
+    (Binary.is_finite 24 128 x = true -> Binary.is_finite 24 128 y = true ->
+     (o = Div -> Binary.B2R 24 128 y <> 0%R) ->
+     Rlt_bool (Rabs (round32 (rop o (Binary.B2R 24 128 x) (Binary.B2R 24 128 y)))) (bpow radix2 128) = true ->
+     Binary.B2R 24 128 (b32_of_bits r) = round32 (rop o (Binary.B2R 24 128 x) (Binary.B2R 24 128 y)) /\
+     Binary.is_finite 24 128 (b32_of_bits r) = true).
+Proof.
+  intros Ho Ha Hb x y. cbn [sop]. unfold f32_op. rewrite (f32_range_ok a b Ha Hb). fold x y.
+  destruct o; try discriminate; cbn [rop]; eexists; (split; [reflexivity|]);
+    intros Fx Fy Hd Hov; rewrite b32_bits_roundtrip; unfold round32 in *.
+  - pose proof (Binary.Bplus_correct 24 128 eq_refl eq_refl binop_nan_pl32 mode_NE x y Fx Fy) as H.
+    rewrite Hov in H. destruct H as [H1 [H2 _]]. split; assumption.
+  - pose proof (Binary.Bminus_correct 24 128 eq_refl eq_refl binop_nan_pl32 mode_NE x y Fx Fy) as H.
+    rewrite Hov in H. destruct H as [H1 [H2 _]]. split; assumption.
+  - pose proof (Binary.Bmult_correct 24 128 eq_refl eq_refl binop_nan_pl32 mode_NE x y) as H.
+    rewrite Hov in H. destruct H as [H1 [H2 _]]. split; [assumption|]. unfold b32_mult. rewrite H2, Fx, Fy. reflexivity.
+  - pose proof (Binary.Bdiv_correct 24 128 eq_refl eq_refl binop_nan_pl32 mode_NE x y (Hd eq_refl)) as H.
+    rewrite Hov in H. destruct H as [H1 [H2 _]]. split; [assumption|]. unfold b32_div. rewrite H2. exact Fx.
+Qed.
+
+(* unary minus on floats is exact negation *)
+Theorem sop_f64_neg a b : (0 <= a < 2 ^ 64)%Z -> (0 <= b < 2 ^ 64)%Z ->
+  exists r, sop Neg KF64 (Zx a) (Zx b) = SV true (Zx r) /\
+            Binary.B2R 53 1024 (b64_of_bits r) = (- Binary.B2R 53 1024 (b64_of_bits a))%R.
+Proof.
+  intros Ha Hb. cbn [sop]. unfold f64_op. rewrite (f64_range_ok a b Ha Hb). eexists. split; [reflexivity|].
+  rewrite b64_bits_roundtrip. apply Binary.B2R_Bopp.
+Qed.
+
+(* comparisons of finite floats are the order of the reals they denote; with a NaN only != holds *)
+Theorem sop_f64_cmp o a b :
+  is_cmp o = true -> (0 <= a < 2 ^ 64)%Z -> (0 <= b < 2 ^ 64)%Z ->
+  let x := b64_of_bits a in
+  let y := b64_of_bits b in
+  (Binary.is_finite 53 1024 x = true -> Binary.is_finite 53 1024 y = true ->
+   sop o KF64 (Zx a) (Zx b) = SV true (bool_p (cmp_of o (Rcompare (Binary.B2R 53 1024 x) (Binary.B2R 53 1024 y))))) /\
+  (Binary.is_nan 53 1024 x = true \/ Binary.is_nan 53 1024 y = true ->
+   sop o KF64 (Zx a) (Zx b) = SV true (bool_p (match o with Ne => true | _ => false end))).
+Proof.
+  intros Ho Ha Hb x y. cbn [sop]. unfold f64_op. rewrite (f64_range_ok a b Ha Hb). fold x y. split.
+  - intros Fx Fy. unfold b64_compare. rewrite (Binary.Bcompare_correct 53 1024 x y Fx Fy).
+    destruct o; try discriminate; reflexivity.
+  - intros Hn. assert (Hc : b64_compare x y = None).
+    { unfold b64_compare. destruct Hn as [Hn|Hn].
+      - destruct x; try discriminate. reflexivity.
+      - destruct y; try discriminate. destruct x; reflexivity. }
+    rewrite Hc. destruct o; try discriminate; reflexivity.
+Qed.
+
+Theorem sop_f32_cmp o a b :
+  is_cmp o = true -> (0 <= a < 2 ^ 32)%Z -> (0 <= b < 2 ^ 32)%Z ->
+  let x := b32_of_bits a in
+  let y := b32_of_bits b in
+  (Binary.is_finite 24 128 x = true -> Binary.is_finite 24 128 y = true ->
+   sop o KF32 (Zx a) (Zx b) = SV true (bool_p (cmp_of o (Rcompare (Binary.B2R 24 128 x) (Binary.B2R 24 128 y))))) /\
+  (Binary.is_nan 24 128 x = true \/ Binary.is_nan 24 128 y = true ->
+   sop o KF32 (Zx a) (Zx b) = SV true (bool_p (match o with Ne => true | _ => false end))).
+Proof.
+  intros Ho Ha Hb x y. cbn [sop]. unfold f32_op. rewrite (f32_range_ok a b Ha Hb). fold x y. split.
+  - intros Fx Fy. unfold b32_compare. rewrite (Binary.Bcompare_correct 24 128 x y Fx Fy).
+    destruct o; try discriminate; reflexivity.
+  - intros Hn. assert (Hc : b32_compare x y = None).
+    { unfold b32_compare. destruct Hn as [Hn|Hn].
+      - destruct x; try discriminate. reflexivity.
+      - destruct y; try discriminate. destruct x; reflexivity. }
+    rewrite Hc. destruct o; try discriminate; reflexivity.
+Qed.
+
+(* the scalar model as a partial function on payloads (binding or advisory prediction) *)
+Definition sopf (o : op) (k : kind) (x y : sx) : option sx :=
+  match sop o k x y with SV _ p => Some p | _ => None end.
+
+(* the kind table and the scalar model agree: no arm <-> SRej *)
+Theorem sop_rej_iff_not_accepts o sg w a b :
+  in_range sg w a = true -> in_range sg w b = true ->
+  (sop o (KInt sg w) (Zx a) (Zx b) = SRej <-> accepts o (KInt sg w) = false).
+Proof.
+  intros Ha Hb. cbn [sop]. rewrite Ha, Hb. cbn [andb].
+  destruct o; cbn [int_op accepts]; unfold ret_int;
+    repeat match goal with
+    | |- context [if ?c then _ else _] => destruct c eqn:?
+    end; cbn; split; intros H; try discriminate; try reflexivity;
+    try (destruct sg; discriminate).
+  all: try (apply andb_false_iff in H; destruct H as [H|H];
+            [apply negb_false_iff in H; subst sg; discriminate|]).
+  all: try (apply orb_false_iff in Heqb0; destruct Heqb0 as [-> Hw]; cbn in H;
+            apply Z.leb_gt in H; apply Z.ltb_ge in Hw; lia).
+  all: try (apply orb_prop in Heqb0; destruct Heqb0 as [->|Hw]; [reflexivity|];
+            apply andb_false_iff; right; apply Z.leb_gt; apply Z.ltb_lt in Hw; exact Hw).
+Qed.
